@@ -928,6 +928,8 @@ class C05(Property):
                 t = copy.deepcopy(tree)
                 target = [m for m in _preorder(t) if m["id"] == n["id"]][0]
                 del target["kids"][i]
+                if target["k"] == "sd" and not target["kids"] and not target.get("absent"):
+                    target["absent"] = 1          # a SparseDict schema needs at least one field
                 v = variant(t)
                 if v is not None:
                     yield v
